@@ -6,7 +6,9 @@ import json, os, subprocess, time
 # keywords or ending in "test" (latest!), case variants, tags/platforms that are prefixes of each other
 PKGS = ["", "a", "a/b", "b", "ab", "a/b/c", "ab/c"]
 NAMES = ["lib", "app", "x_test", "test", "all", "gen", "tool", "b", "c", "unit_test", "tests", "a", "Test", "latest", "testx", "ab"]
-TAGS = ["t1", "t2", "t3", "t", "T1", "no-cache"]
+# semantic tags of grog itself: `testonly` restricts who may depend on a target (it does NOT make it a test: test-ness is the
+# `*test` name suffix alone), `no-cache`, `multiplatform-cache`; plus a near-miss `testonlyx`
+TAGS = ["t1", "t2", "t3", "t", "T1", "no-cache", "testonly", "multiplatform-cache", "testonlyx"]
 PLATFORMS = ["linux/amd64", "linux/arm64", "darwin/arm64", "linux/amd", "linux/amd64/v2"]
 TYPES = ["all", "test", "no_test", "bin_output"]
 
@@ -192,7 +194,7 @@ def gen_attr_graph(rng, n=None, alias_p=0.2, plat_p=0.25, pkgs=None):
         if is_alias:
             es.append((rng.randrange(i), i))
         else:
-            node["tags"] = [t for t in TAGS if rng.random() < 0.2]
+            node["tags"] = [t for t in TAGS if rng.random() < (0.3 if t == "testonly" else 0.15)]
             if rng.random() < plat_p:
                 node["platforms"] = rng.sample(PLATFORMS, rng.randint(1, 2))
             node["bin"] = rng.random() < 0.2
